@@ -272,7 +272,7 @@ META = {
    technique='Coq theorems (save with an empty queue is the identity; sorted() over a strict weak order is canonical and idempotent) + repeated and order-permuted update runs on real trees',
    level_text='Proved in Coq for all inputs: a save with nothing queued and no force returns the same filesystem and loader state (C12_nothing_queued_nothing_written); the sorted dump of '
               'any two arrangements of the same entries is identical, and sorting twice equals sorting once, for entries ordered by (tag, path | timestamp) with pairwise distinct keys '
-              '(C12_sorted_dump_canonical, C12_sorted_dump_idempotent), likewise the checksum-name order. PARTIAL: that a second update queues nothing and that the written entry set is '
+              '(C12_sorted_dump_canonical, C12_sorted_text_canonical, C12_sorted_dump_idempotent), likewise the checksum-name order; a refreshed entry is a fixed point of the refresh (C12_refresh_idempotent). PARTIAL: that a second update queues nothing and that the written entry set is '
               'independent of the enumeration order is decided on generated trees (queue + st_mtime_ns of every file; paired runs with permuted scandir order and permuted old Manifests).',
    level_note='About Model/Update.v save_manifests and Py/PyStr.v py_sorted (= save_manifest\'s sort); the deterministic gzip header is exercised on the implementation (compressed bytes are an oracle).'),
  'C13': dict(engine='coq+tree', design_ref='DESIGN.md section 5 C13',
